@@ -255,7 +255,27 @@ def build_case(r, tier):
                 name, tmpl, plain = stmts[r.choice([0, 1, 5])]
         else:
             redir, tgt = (">>" if app else ">"), "\"d_\" . $k . \".out\""
+        # "computed target names": the same name, arrived at in different ways
+        form = r.choice(["concat", "concat", "capture", "capture", "local", "format", "sub", "udf"])
+        stem, pre_stmt, wrap = ("cat > p_" if mode == "pipe" else "d_"), "", None
+        if mode == "pipe" and case.get("slow_children"):
+            stem = "sleep 0.2; cat > p_"
+        if form == "capture":
+            # "\1" in a string literal is filled in from the most recent successful =~, per record
+            tgt, wrap = "\"%s\\1.out\"" % stem, "if ($k =~ \"^(.*)$\") { %s }"
+        elif form == "local":
+            pre_stmt, tgt = "var tgtname = \"%s\" . $k . \".out\"; " % stem, "tgtname"
+        elif form == "format":
+            tgt = "format(\"%s{}.out\", $k)" % stem
+        elif form == "sub":
+            tgt = "sub($k, \"^(.*)$\", \"%s\\1.out\")" % stem
+        elif form == "udf":
+            pre_stmt, tgt = "func tgtname(str s): str { return \"%s\" . s . \".out\" } " % stem, "tgtname($k)"
         stmt = tmpl.replace("{R}", redir).replace("{T}", tgt)
+        if wrap:
+            stmt = wrap % stmt
+        stmt = pre_stmt + stmt
+        case["name_form"] = form
         post = r.choice(["", "", "; $v = \"mutated\"", "; unset $w"]) if name in ("tee", "emit") else ""
         verbs = [["put", "-q", stmt + post]]
         if post and r.chance(0.5):
